@@ -184,7 +184,9 @@ class ListeningConnection(Connection):
         )
         connection._reader, connection._writer = reader, writer
         await self.network.on_peer_accepted(connection)
-        await connection.set_state(ConnectionState.CONNECTED)
+        # The connection could have been closed during initialization
+        if connection.state == ConnectionState.UNINITIALIZED:
+            await connection.set_state(ConnectionState.CONNECTED)
 
 
 class DataConnection(Connection, abc.ABC):
